@@ -4,7 +4,7 @@
     reports exactly the chain — so a disagreement observed on a real kernel path is attributable to the socket
     layer or the kernel, not to that logic. *)
 From Coq Require Import List ZArith Bool.
-From TR Require Import Eng.Engine Net.Ideal Proofs.IdealProofs Pol.Params Proofs.ParamProofs.
+From TR Require Import Eng.Engine Net.Ideal Proofs.IdealProofs Proofs.FilteredProofs Pol.Params Proofs.ParamProofs.
 Import ListNotations.
 Open Scope Z_scope.
 
@@ -23,6 +23,27 @@ Theorem C13_no_sack_support : forall syn sock,
   /\ fb_syn_calls (perform MPrefer syn (sack_run FNoSackPermitted) sock) = 1.
 Proof. intros. split; destruct syn; reflexivity. Qed.
 Print Assumptions C13_no_sack_support.
+
+(** a firewalled destination port (the kernel lab's port state 3): the routers answer, the destination drops the probes;
+    whatever the engine is handed under those conditions, the run reports one entry per TTL up to the LAST TTL - the
+    routers, then silence - and no destination *)
+Theorem C13_filtered_chain_reported : forall pa first last acc,
+  1 <= first <= last -> 0 <= pa_n pa ->
+  filtered_accepted pa first last acc ->
+  exists hs, run_hops first last acc = Done hs
+    /\ Z.of_nat (length hs) = last - first + 1
+    /\ forall i h, nth_error hs i = Some h -> filtered_hop pa (first + Z.of_nat i) h.
+Proof. exact filtered_chain_path. Qed.
+Print Assumptions C13_filtered_chain_reported.
+
+(** a target that cannot be connected to, whatever the cause of the dial failure (refused, timed out, unreachable):
+    method sack fails as not-supported, prefer_sack falls back to SYN (C20) *)
+Theorem C13_cannot_connect : forall cause syn sock,
+  fb_trace (perform MSack syn (sack_run (FDial cause)) sock) = None
+  /\ fb_syn_calls (perform MPrefer syn (sack_run (FDial cause)) sock) = 1
+  /\ fb_err (perform MPrefer ROk (sack_run (FDial cause)) sock) = None.
+Proof. intros. repeat split; destruct syn; reflexivity. Qed.
+Print Assumptions C13_cannot_connect.
 
 Example C13_example : predicted (mkPath 2 2) 1 30 = [(1, Some 1, false); (2, None, false); (3, Some 3, true)].
 Proof. reflexivity. Qed.
